@@ -356,6 +356,12 @@ def r2(ctx, cfg):
                 upd = any(c2[0] == "variant_in" and c2[2] in (("Continue",), ("Ok",)) and peel(c2[1])[0] == "call" and peel(c2[1])[1] == SK + "update_rewards" for e, c2 in conds)
                 if contains(o, lambda x: x[0] == "call" and x[1] == "cw_storage_plus::Map::may_load" and peel(x[2][0]) == VINFO) and upd:
                     why = "may_load(validator).unwrap() is dominated by update_rewards(validator) succeeding, which fails for an unknown validator"
+            elif k in ("std::result::Result::expect", "std::result::Result::unwrap") and peel(a[0])[0] == "call" and \
+                    (peel(a[0])[3] or "").startswith("<cosmwasm_std::Decimal as std::convert::TryFrom<cosmwasm_std::Decimal256>>"):
+                # a 256-bit intermediate narrowed back to Decimal: fails only when the result itself leaves the range of the
+                # 18-decimal fixed point, which the property's quantifier excludes ("amounts and time spans small enough that
+                # the simulator's 18-decimal fixed-point arithmetic does not overflow") - as every `+` and `*` on Decimal does
+                why = "narrowing of a 256-bit intermediate: fails only on overflow of the result, excluded by the quantifier"
             elif k.startswith("core::panicking::") and (t.get("exp") or "").startswith("$crate::panic::unreachable"):
                 why = None
             ctx.ob(R, root, "panic-site:%s%s" % (c["name"], q_tag(f, t)), why is not None,
